@@ -167,6 +167,14 @@ def run(tier, argv):
     tests += sp2["located_violations"]
     rep.cov["evaluations"] = n + tests
     rep.cov["distinct_nontrivial"] = n + tests
+    # the error of a type that does not load, converted: file, position and code of the type's own Check (every prefix of four type texts)
+    cm = work.path("conv.ndjson")
+    p = vlib.run_harness(hbin, ["c17conv", "-out", cm], timeout=600)
+    if p.returncode != 0:
+        raise vlib.Infra("c17conv failed: " + p.stderr.decode()[-2000:])
+    rep.notes["converted_addtype_errors"] = semcommon.summary_of(p.stderr)
+    for m in vlib.read_ndjson(cm):
+        bad.append({"part": "converted-error", "what": m["what"], "content": m["content"], "pos": -1, "want": m["want"], "got": m["got"]})
     # positions far into long documents: arrays of up to 70 000 items with one odd item, the error must be at its offset (TraceSem)
     for b in semcommon.random_tier(work, rep, hbin, False, 0):
         bad.append({"part": "validation-position (long arrays)", "what": "position", "content": list(b["doc"].encode()), "pos": b["want"], "want": b["want"], "got": json.dumps(b["got"])})
